@@ -502,9 +502,10 @@ func parseFormat(origFmt string, separator string, separator2 string, containerF
 	flags := group[1]
 
 	plus := byte(0)
+	hasPlus := hasDelimOnce(flags, origFmt, '+')
 	if hasDelimOnce(flags, origFmt, ' ') {
 		plus = ' '
-	} else if hasDelimOnce(flags, origFmt, '+') {
+	} else if hasPlus {
 		plus = '+'
 	}
 
